@@ -282,7 +282,7 @@ func (g *G) mpReply(sm *SwitchMsg) {
 		m.Type = of.MultipartType_Flow
 		k := g.ListLen("nrecords", 40)
 		for i := 0; i < k; i++ {
-			if g.Budget < 400 {
+			if g.Budget < 400 && (i >= 1 || g.Budget < 100) { // a small budget still allows one record
 				break
 			}
 			f := of.NewFlowStats()
@@ -298,7 +298,7 @@ func (g *G) mpReply(sm *SwitchMsg) {
 			r.Add(mn)
 			ni := g.ListLen("ninstr", 6)
 			for j := 0; j < ni; j++ {
-				if g.Budget < 200 {
+				if g.Budget < 200 && (j >= 2 || g.Budget < 40) {
 					break
 				}
 				in, inn, name := g.Instr()
